@@ -161,7 +161,10 @@ func init() {
 		// pass itself - an external test package x_test is not its package x
 		c.only([]string{"ALLOWED-BY", "OTHER-PACKAGE", "FLOOR"}, func() { c.ruleSitesPKGO() })
 		c.rulePosInFile()
-	}, Explanation: "pass.Files is read in exactly one place, Config.FilterFiles, which yields every file for which ShouldSkipFile is false; ShouldSkipFile is true exactly for (name contains an exclude-paths entry) or (!ScanTests and name ends in _test.go), on the file's own name; every reader/checker filters with the effective configuration of its own pass; every TONL site is additionally guarded by !HasSuffix(name,\"_test.go\") regardless of configuration; the referring package of every PKGO site is pass.Pkg itself (path and name unedited: an external test package is checked as what it is); every diagnostic position is Pos() of a node of a filtered file (or of an annotation read from one)."})
+		// under go vet the facts of a dependency are cached per tool identity: computed under one exclude-paths /
+		// scan-tests value they must not be reused under another (annotations of files excluded now would act)
+		c.ruleToolIdentity()
+	}, Explanation: "pass.Files is read in exactly one place, Config.FilterFiles, which yields every file for which ShouldSkipFile is false; ShouldSkipFile is true exactly for (name contains an exclude-paths entry) or (!ScanTests and name ends in _test.go), on the file's own name; every reader/checker filters with the effective configuration of its own pass; every TONL site is additionally guarded by !HasSuffix(name,\"_test.go\") regardless of configuration; the referring package of every PKGO site is pass.Pkg itself (path and name unedited: an external test package is checked as what it is); every diagnostic position is Pos() of a node of a filtered file (or of an annotation read from one). Under go vet the tool identity covers the GOGREEMENT_* variables, set or unset (TOOL-ID/*): facts cached under one exclusion are not reused under another."})
 
 	registerProp(&propDef{ID: "C15", Rules: func(c *Ctx) {
 		c.ruleLangEq()
